@@ -33,6 +33,20 @@ def exh_visitor(ix, rep, cls, label, rule='R-EXH'):
             if nc.name in UNBOUNDED:
                 rep.fail(rule, where, sym, slot, 'unbounded future operator %s is given a value instead of being rejected' % nc.name, line)
             else:
+                # a handler of an operator the rewrite supports does not refuse under a condition: the horizon and the pastifier serve the discrete-
+                # and the dense-time monitors alike (a test against the sampling grid refuses dense-time bounds such as [0, 0.5], which are supported)
+                cond_raise = None
+                if f is not None:
+                    for x in ast.walk(f.node):
+                        if isinstance(x, ast.Raise):
+                            cond_raise = x
+                        elif isinstance(x, ast.Call) and D._self_call(x) and cond_raise is None:
+                            h_ = ix.resolve_method(cls, D._self_call(x))
+                            if h_ is not None and not h_.node.name.startswith('visit') and any(isinstance(y, ast.Raise) for y in ast.walk(h_.node)):
+                                cond_raise = x
+                if cond_raise is not None:
+                    rep.fail(rule, where, sym, slot + ':refuses', 'the handler of %s, an operator the rewrite supports, raises under a condition (`%s`): a specification that the monitors '
+                             'accept is refused by pastify()' % (nc.name, ast.unparse(cond_raise)[:60]), cond_raise.lineno)
                 rep.ok(rule, where, sym, slot, 'compute', line)
         elif cat == 'reject':
             if nc.name in UNBOUNDED and D.is_rtamt_exception(ix, info):
